@@ -263,8 +263,33 @@ theorem invL_stop (c : Cfg) (s : St) (h : InvL c s) (hA : InvA s) : InvL c (step
     obtain ⟨q1, _, _⟩ := registered_live s hA q hl.1
     exact absurd ⟨q1, hl.1⟩ hd
 
+/-- dropping the queued entry of `x` from the connection registered for `a` is harmless when that
+    connection carries no obligation for `x` -/
+theorem invL_dropEvent (c : Cfg) (t : St) (a : Addr) (x : Cid) (h : InvL c t)
+    (hq : ∀ q, t.reg a = some q → (t.obj q).since x = false) : InvL c (dropEvent c t a x) := by
+  simp only [dropEvent]
+  split
+  · split
+    · exact h
+    · rename_i q0 hq0
+      intro q y hs
+      by_cases hqq : q = q0
+      · subst hqq
+        simp only [upd_apply, if_true] at hs
+        have hyx : y ≠ x := by
+          intro e; subst e; have := hq q hq0; simp_all
+        refine lok_frame c t _ q y (h q y hs) ?_ rfl (fun g => g) rfl ?_ ?_ ?_
+        · simp [upd_apply]
+        · simp [upd_apply, aget_adel, hyx]
+        · simp [upd_apply]
+        · simp [upd_apply, pendingFlush]
+      · simp only [upd_apply, hqq, if_false] at hs
+        refine lok_frame c t _ q y (h q y hs) ?_ rfl (fun g => g) rfl ?_ ?_ ?_
+        all_goals simp [upd_apply, hqq, pendingFlush]
+  · exact h
+
 theorem invL_putSub (c : Cfg) (s : St) (p : ObjId) (x : Cid) (ev : Option Bool) (h : InvL c s) (hA : InvA s)
-    (hU : UniqInv s) (hp : p < s.nobj) (hpl : (s.obj p).lost = false) : InvL c (putSub s p x ev) := by
+    (hU : UniqInv s) (hp : p < s.nobj) (hpl : (s.obj p).lost = false) : InvL c (putSub c s p x ev) := by
   simp only [putSub]
   split
   · exact h
@@ -275,7 +300,23 @@ theorem invL_putSub (c : Cfg) (s : St) (p : ObjId) (x : Cid) (ev : Option Bool) 
     split
     · rename_i e; subst e; simp [memT_subAdd, g]
     · exact g
-  · intro q y hs
+  · apply invL_dropEvent
+    case hq =>
+      -- the connection registered for the requester's address is the requester itself
+      intro q0 h0
+      have h0' : s.reg (s.obj p).addr = some q0 := h0
+      have hq0 : q0 = p := by
+        by_cases e : q0 = p
+        · exact e
+        · exfalso
+          have hr0 : registered s q0 := by
+            have := (hA.reg_ok _ q0 h0').2.1
+            simp only [registered, this]; exact h0'
+          exact addr_ne s hA hU q0 p hr0 hp hpl e (hA.reg_ok _ q0 h0').2.1
+      subst hq0
+      simp [unsubSt, upd_apply]
+    simp only [unsubSt]
+    intro q y hs
     by_cases hqp : q = p
     · subst hqp
       simp only [upd_apply, if_true] at hs
